@@ -75,6 +75,8 @@ def _case(draw, tier):
         "raw_labels": draw(st.booleans()),
         # one noise feature becomes a two-valued indicator that marks nearly all correct targets: the best single feature
         "flag": draw(st.sampled_from([False, False, True])),
+        # file layout: targets listed ahead of the decoys (matters when scores tie, e.g. all-zero scores of an untrained model)
+        "targets_first": draw(st.sampled_from([False, True])),
         "cap_kind": "none", "cap_frac": 50, "shared_prefix": False, "row_group": None,
         "predict_chunk": draw(st.sampled_from([None, None, 64])), "readall_chunk": None,
     }
@@ -288,6 +290,8 @@ def check(case):
             classes.append("train_fdr!=test_fdr")
         if case["twin"]:
             classes.append("twin-features")
+        if case.get("targets_first"):
+            classes.append("targets-listed-first")
         if case.get("flag"):
             classes.append("two-valued-indicator-feature")
             if F_args is not None and F_args[1] == "f1":
